@@ -235,6 +235,43 @@ func init() {
 					w.Rot = rot
 				}
 			}
+			// stratum: the preceding crop stands until 1-4 days before the next sowing date / window, and the window is
+			// short; optionally the harvested crop gets its automatic organic dressing after harvest
+			if len(w.Rot) > 2 && r.Bool(0.3) {
+				i := r.Range(2, len(w.Rot)-1)
+				cur := w.Rot[i]
+				firstSow := cur.Sow
+				if c.AutoSow {
+					firstSow, _, _ = w.AutoWindows(i)
+				}
+				newH := firstSow - Day(r.Range(1, 4))
+				prevLine := w.autoLine(w.Rot[i-1].Crop)
+				curLine := w.autoLine(cur.Crop)
+				if newH.Year() == w.Rot[i-1].Harvest.Year() && newH > w.Rot[i-1].Harvest && prevLine != nil && curLine != nil && w.Rot[i-1].Crop != cur.Crop {
+					savedRot, savedPrev, savedCur := w.Rot[i-1], *prevLine, *curLine
+					w.Rot[i-1].Harvest = newH
+					_, prevLine.Har2M, prevLine.Har2D = newH.YMD()
+					if c.AutoSow {
+						_, curLine.Sow2M, curLine.Sow2D = (firstSow + Day(r.Range(0, 3))).YMD()
+					}
+					if r.Bool(0.5) {
+						var org []string
+						for _, f := range paramTables.Fertilizer {
+							if f.Nfst+f.Nslo > 0 {
+								org = append(org, f.Name)
+							}
+						}
+						if len(org) > 0 {
+							w.Rot[i-1].AutOrg = 1
+							prevLine.OrgF, prevLine.OrgAmt, prevLine.App = r.PickS(org), r.PickI([]int{100, 200, 300}), r.PickS([]string{"H1", "H1", "S1"})
+						}
+					}
+					w.TightGap = true
+					if !w.autoValid() {
+						w.Rot[i-1], *prevLine, *curLine, w.TightGap = savedRot, savedPrev, savedCur, false
+					}
+				}
+			}
 			if c.AutoHarvest {
 				w.Till = nil
 			}
